@@ -55,6 +55,10 @@ func (dec *Decoder) decodeComplex64(t reflect.Type, tag byte, p *complex64) {
 		*p = complex(dec.ReadFloat32(), 0)
 	case TagInfinity:
 		*p = complex(float32(dec.readInf()), 0)
+	case TagList:
+		var pair [2]float32
+		dec.decode(&pair, tag)
+		*p = complex(pair[0], pair[1])
 	case TagUTF8Char:
 		*p = dec.stringToComplex64(dec.readUnsafeString(1))
 	case TagString:
@@ -96,6 +100,10 @@ func (dec *Decoder) decodeComplex128(t reflect.Type, tag byte, p *complex128) {
 		*p = complex(dec.ReadFloat64(), 0)
 	case TagInfinity:
 		*p = complex(dec.readInf(), 0)
+	case TagList:
+		var pair [2]float64
+		dec.decode(&pair, tag)
+		*p = complex(pair[0], pair[1])
 	case TagUTF8Char:
 		*p = dec.stringToComplex128(dec.readUnsafeString(1))
 	case TagString:
